@@ -17,15 +17,25 @@ from src import utils
 
 
 class SymRandom:
-    def __init__(self, eng, words=None, max_draws=400):
+    def __init__(self, eng, words=None, max_draws=400, max_sym_draws=None):
         self.eng = eng
         self.words = list(words or ['aa', 'bb', 'cc', 'dd', 'ee', 'ff', 'gg', 'hh'])
         self.pool = list(self.words)
         self.draws = 0
+        self.sym_draws = 0
+        self.max_sym_draws = max_sym_draws   # after this many symbolic draws: first element / False / lower bound
         self.max_draws = max_draws
         self.log = []
         self.word_mode = 'first'      # 'first': deterministic fresh word (names are interchangeable); 'any'
         self._n = 0
+
+    def _fixed(self):
+        if self.max_sym_draws is None:
+            return False
+        if self.sym_draws >= self.max_sym_draws:
+            return True
+        self.sym_draws += 1
+        return False
 
     def _tick(self, what):
         self.draws += 1
@@ -38,7 +48,7 @@ class SymRandom:
         seq = list(choices)
         if not seq:
             raise IndexError('Cannot choose from an empty sequence')
-        i = self.eng.choice_index(len(seq), 'choice')
+        i = 0 if (len(seq) > 1 and self._fixed()) else self.eng.choice_index(len(seq), 'choice')
         self.log.append(('choice', len(seq), i))
         return seq[i]
 
@@ -48,7 +58,7 @@ class SymRandom:
             return False
         if prob >= 1:
             return True
-        b = bool(self.eng.fresh_bool('rbool'))
+        b = False if self._fixed() else bool(self.eng.fresh_bool('rbool'))
         self.log.append(('bool', b))
         return b
 
@@ -56,7 +66,7 @@ class SymRandom:
         self._tick('integer')
         if min_int > max_int:
             raise ValueError('empty range for randrange() (%d, %d)' % (min_int, max_int + 1))
-        n = int(self.eng.fresh_int(min_int, max_int, 'rint'))
+        n = min_int if (min_int < max_int and self._fixed()) else int(self.eng.fresh_int(min_int, max_int, 'rint'))
         self.log.append(('integer', min_int, max_int, n))
         return n
 
